@@ -296,7 +296,7 @@ static void runDeque(const J& c) {
             else if (o == "popBack") d.pop_back();
             else if (o == "resize") d.resize(size_t(op.num("n")));
             else if (o == "clear") d.clear();
-            else if (o == "swap") { DeqT t(mm(), 0, bs); fill(t, src); d.swap(t); other = seqJson(deqIndex(t)); }
+            else if (o == "swap") { DeqT t(mm(), 0, op.boolean("wide", false) ? bs + 1 : bs); fill(t, src); d.swap(t); other = seqJson(deqIndex(t)); }
             else if (o == "assign") { DeqT t(mm(), 0, bs); fill(t, src); d = t; }
             else if (o == "selfAssign") { DeqT& alias = d; d = alias; }
             else if (o == "copy") { DeqT t(d, mm()); other = seqJson(deqIndex(t)); }
